@@ -37,9 +37,54 @@ pub fn fam(r0: i32, max_r: i32) -> Vec<u64> {
             }
         }
     }
+    out.extend(aligned_cells().into_iter().filter(|&c| {
+        let r = rc::resolution(c).unwrap();
+        r >= r0 && r <= max_r
+    }));
     out.sort_unstable();
     out.dedup();
     out
+}
+
+/// word-aligned cells (also the second-generation cells of the C06 table): positions whose low 8 / 12 / 16 curve digits are all 0 or all 3 below a
+/// pseudo-random prefix (word-aligned ids, first / last descendants many levels down), every
+/// (face, quintant), resolutions from 10 up
+pub fn aligned_cells() -> Vec<u64> {
+    let mut v = Vec::new();
+    let mut x: u64 = 0x2545F4914F6CDD1D;
+    for face in 0..12u64 {
+        for quintant in 0..5u64 {
+            for res in [10, 13, 14, 17, 18, 19, 21, 22, 25, 26, 28, 29] {
+                let levels = (res - 1) as u32;
+                for k in [8u32, 12, 16, 20] {
+                    if k >= levels {
+                        continue;
+                    }
+                    for fill in [0u64, 3] {
+                        for _ in 0..2 {
+                            x ^= x << 13;
+                            x ^= x >> 7;
+                            x ^= x << 17;
+                            let hi_digits = levels - k;
+                            let mut prefix = x & ((1u64 << (2 * hi_digits.min(31))) - 1);
+                            // last prefix digit differs from the fill digit
+                            if prefix & 3 == fill {
+                                prefix ^= 1;
+                            }
+                            let low = if fill == 0 { 0 } else { (1u64 << (2 * k)) - 1 };
+                            let s = (prefix << (2 * k)) | low;
+                            if let Some(id) = rc::encode(rc::Tuple { face, quintant, s, res }) {
+                                v.push(id);
+                            }
+                        }
+                    }
+                }
+            }
+        }
+    }
+    v.sort_unstable();
+    v.dedup();
+    v
 }
 
 /// chains (root -> ... -> leaf) of FAM, each as a Vec from r0 down to max_r
@@ -191,6 +236,12 @@ pub fn merid_lonlat() -> Vec<(f64, f64, &'static str)> {
     for lon in [180.0, -180.0, 179.9999999, -179.9999999, 540.0, -540.0, 87.0, 86.9999999, 87.0000001, -273.0] {
         for k in 0..73 {
             out.push((lon, -90.0 + 2.5 * k as f64, "antimeridian"));
+        }
+    }
+    // signed zeros, denormals and exact range ends (a sign test or a clamp may treat them differently)
+    for lon in [0.0, -0.0, 180.0, -180.0, 360.0, -360.0, 1e-300, -1e-300, 5e-324, -5e-324, 90.0, -90.0, 87.0, -93.0] {
+        for lat in [0.0, -0.0, 90.0, -90.0, 1e-300, -1e-300, 5e-324, 45.0, -45.0] {
+            out.push((lon, lat, "antimeridian"));
         }
     }
     out
